@@ -51,14 +51,34 @@ STRENGTHENED.update({
     "C18-h": "sub-check 'aliasing': several same-shaped rasters of >= 32768 pixels (separate cubes, Dataset variables, equal dask blocks) processed one after the other, all results compared at the end",
     "C19-g": "sub-check 'history': axis relabelled in place / cells overwritten between iteragg calls on one object, compared with a brand-new object",
     "C19-h": "the cube as the variables of a Dataset (a and 2a) with NaN cells"})
+STRENGTHENED.update({
+    "C01-i": "y and w handed to the core in integer / bool / float32 dtypes (integral series, 0/1 masks)",
+    "C01-j": "fill values rasters really carry (1e20, -3.4e38, 9.97e36, the float64 maximum) at zero-weight cells - what such a cell holds is irrelevant to the solution",
+    "C03-j": "accessor cases carry an unrelated nodata ATTRIBUTE while nodata (0 included) is passed as argument",
+    "C05-i": "sranges whose candidates are not sorted (descending, shuffled) in the non-robust symmetric GCV sub-check",
+    "C06-i": "generic sub-check 'history' (harness/history.py) installed in C06: in-place edits between smoother calls on one object, compared with a brand-new object",
+    "C06-j": "accessor_linear cases pass nodata=0 on arrays that carry an unrelated nodata attribute",
+    "C09-i": "generic sub-check 'history' with sticky arguments (one query differs from the previous one in a single argument - here only the arrangement of the same group labels under the same window); written after reading the seed's report and before its first evaluation, the check as it stood had no history on one object and would have missed it",
+    "C11-j": "dekadal axes (stamps on the 1st/11th/21st, optionally with hours) with repeated and missing dekads",
+    "C12-i": "neighbouring pixels that agree on all but the first and last step (always for the SPI operations, half of the other cubes)",
+    "C13-i": "sub-check 'large': inputs of >= 2^20 cells for do_mean, mean_grp, rolling_sum, lroo, autocorr_1d_int, compiled vs interpreted source on integer data, repeated compiled runs must agree (a program without an input generator is now counted, not a harness error)",
+    "C13-j": "the same 'large' sub-check with a comparison to the last float32 digits (integer data, float64 accumulators)",
+    "C16-i": "two lazy zonal means over the same zone values read with different zone nodata values evaluated in one graph - which exposed the genuine defect D17 on the unchanged tree",
+    "C17-i": "sentinels at the edge of the dtype (float32 minimum, netCDF fill 9.97e36, int64 minimum) in mixed windows",
+    "C18-j": "dask input with the time axis split into irregular chunks: refused, or the longest run of the whole series",
+    "C19-i": "lazy cubes whose windows are all collected first and evaluated afterwards in one dask.compute",
+    "C19-j": "int16 / uint8 / int32 cubes whose window sums exceed the storage dtype",
+    "C20-i": "template, labels and observations handed over as strided views"})
 FIRST = {k: "missed" for k in STRENGTHENED}  # result of the first evaluation, before the strengthening the seed prompted
 SUPERSEDED = {
+    "C12-j": "superseded: confirmed and caught on hdc-algo 2da843a; it rewrote the dask key of zonal.mean, the line that the repair of D17 (0318712) now owns, so the patch no longer applies to the repaired tree; at its own base commit it is caught by C12's joint sub-check",
+    "C16-i": "superseded: confirmed on hdc-algo 2da843a (tests pass, demo fails); the joint evaluation it prompted exposed the genuine defect D17 in the same line (the dask key of zonal.mean), repaired by 0318712, after which the patch no longer applies; at its own base commit it is caught",
     "C12-g": "superseded: the patch was confirmed on hdc-algo e8a493c (tests pass, demo fails); the non-default dtype arguments it prompted in C12 exposed the genuine defect D16 in the same lines, repaired by 2da843a, after which the patch no longer applies (its failure mode - a lazy result whose computed dtype differs from the declared one - is what the repaired code and the regress files d16_* pin down)",
     "C15-c": "superseded: the patch applied to hdc-algo 26e16c3 (where it was confirmed and caught); after the repair 1d112b8 (float autocorr subtracts the first valid value) it no longer applies, and the failure mode it seeded (float32 products of large values) cannot be re-created on the repaired code because the products are formed from shifted, small values"}
 out_root = "/verif/seeded"
 os.makedirs(out_root, exist_ok=True)
 rows = []
-for root, variants in (("/tmp/seeds", ("a", "b")), ("/tmp/seeds2", ("c", "d")), ("/tmp/seeds3", ("e", "f")), ("/tmp/seeds4", ("g", "h"))):
+for root, variants in (("/tmp/seeds", ("a", "b")), ("/tmp/seeds2", ("c", "d")), ("/tmp/seeds3", ("e", "f")), ("/tmp/seeds4", ("g", "h")), ("/tmp/seeds5", ("i", "j"))):
   for pid in sorted(os.listdir(root)):
     if not pid.startswith("C"):
         continue
@@ -85,7 +105,7 @@ for root, variants in (("/tmp/seeds", ("a", "b")), ("/tmp/seeds2", ("c", "d")), 
         m = {"id": key, "property": pid, "breaks": meta.get("summary"), "needs_to_manifest": meta.get("needs_to_manifest"),
              "files_changed": meta.get("files_changed"), "author": "independent sub-agent given only the property text and a scratch worktree",
              "author_verification": meta.get("verified"),
-             "confirmed_by_me": {"base_commit": "hdc-algo HEAD at evaluation time (pinned tree + fix: commits; 2de2409 for round 1 a/b, 26e16c3 for round 2 c/d, e8a493c for rounds 3 e/f and 4 g/h)", "patch_applies": True,
+             "confirmed_by_me": {"base_commit": "hdc-algo HEAD at evaluation time (pinned tree + fix: commits; 2de2409 for round 1 a/b, 26e16c3 for round 2 c/d, e8a493c for rounds 3 e/f and 4 g/h, 2da843a for round 5 i/j)", "patch_applies": True,
                                  "existing_tests_with_patch": tests, "demo_exit_code_clean_tree": 0, "demo_exit_code_patched_tree": int(ev["demo_exit_patched"]),
                                  "how": "tools/seed_eval.sh %s %s (scratch copy of /repo HEAD, git apply, pytest, demo on both trees, ./check %s --tier quick with HDC_REPO=<scratch>)" % (pid, v, pid)},
              "check_result_first_evaluation": FIRST.get(key, "caught"), "check_result_now": ev["check"],
